@@ -698,6 +698,8 @@ def run(ctx):
     try:
         n_hist = 190 if thorough else 10
         for i in range(n_hist):
+            if ctx.over_budget():
+                break
             if not ctx.next_case():
                 continue
             ctx.count("cases")
